@@ -531,4 +531,6 @@ def run(run: Run):
     run.floor('C10.R2', 12)
     run.floor('C10.R3', 60)
     run.floor('C10.R4', 8)
+    from .common import shared_mechanisms as _shared
+    _shared(run, 'C10', 10, ['stored-values', 'overrides'])
     return INFO
